@@ -271,6 +271,17 @@ func (st *programState) pushSender(name string, monetary *big.Int) {
 	st.Senders = append(st.Senders, Sender{Name: name, Monetary: monetary})
 }
 
+// Amount already pulled from the given account by the sources of the current statement
+func (st *programState) alreadySent(name string) *big.Int {
+	total := big.NewInt(0)
+	for _, sender := range st.Senders {
+		if sender.Name == name {
+			total.Add(total, sender.Monetary)
+		}
+	}
+	return total
+}
+
 func (st *programState) pushReceiver(name string, monetary *big.Int) {
 	if monetary.Cmp(big.NewInt(0)) == 0 {
 		return
@@ -444,6 +455,7 @@ func (s *programState) sendAllToAccount(accountLiteral parser.ValueExpr, ovedraf
 
 	// we sent balance+overdraft (nothing, when that is negative)
 	sentAmt := new(big.Int).Add(balance, ovedraft)
+	sentAmt.Sub(sentAmt, s.alreadySent(*account))
 	if sentAmt.Sign() == -1 {
 		sentAmt.SetInt64(0)
 	}
@@ -534,6 +546,7 @@ func (s *programState) trySendingToAccount(accountLiteral parser.ValueExpr, amou
 
 		// that's the amount we are allowed to send (balance + overdraft)
 		safeSendAmt := new(big.Int).Add(balance, overdraft)
+		safeSendAmt.Sub(safeSendAmt, s.alreadySent(*account))
 		if safeSendAmt.Sign() == -1 {
 			safeSendAmt.SetInt64(0)
 		}
